@@ -152,8 +152,8 @@ class Sess:
     def new(self, role, sender, target, hb=30, persist='none', flags='-', sseq=0, rseq=0, pm='coro'):
         return self._call('sess new %d %s %s %s %s %s %d %s %s %d %d' % (self.slot, role, pm, self.schema, sender, target, hb, persist, flags or '-', sseq, rseq))
 
-    def feed(self, data, chunks=None):
-        return self._call('sess in %d %s %s' % (self.slot, hx(data), ','.join(map(str, chunks)) if chunks else '-'))
+    def feed(self, data, chunks=None, expect=-1):
+        return self._call('sess in %d %s %s %d' % (self.slot, hx(data), ','.join(map(str, chunks)) if chunks else '-', expect))
 
     def send(self, spec):
         return self._call('sess send %d %s' % (self.slot, spec))
